@@ -574,6 +574,109 @@ func C18(c *core.Ctx) {
 		c.Floor("R18.7", "accesses to NeighborState.Advert / AdvertSeq in dv/dv", nNs, 3)
 	}
 
+	// ---- R18.10 the router's own entry is in the RIB before the handlers are attached (no
+	// advertisement is served without it), and — like every other use of the RIB — with the
+	// router mutex held; R18.11 the sequence number of the Sync Interest is read and written
+	// under the mutex; R18.12 names built in dv/dv do not share storage with the
+	// configuration's slices or a caller's (the aliasing rule of C15 R15.7 on this package)
+	if st := c.Fn("R18.10", "dv/dv", "Router", "Start"); st != nil {
+		_, heldS := core.EntryLocks(p, core.ModPath+"/dv/dv")
+		var sets, regs []ssa.Instruction
+		core.Instrs(st, func(in ssa.Instruction) {
+			ci, ok := in.(ssa.CallInstruction)
+			if !ok {
+				return
+			}
+			id, ok := core.Callee(ci.Common())
+			if !ok {
+				return
+			}
+			if id.Recv == "Rib" && id.Name == "Set" {
+				sets = append(sets, in)
+			}
+			if id.Recv == "Router" && id.Name == "register" {
+				regs = append(regs, in)
+			}
+		})
+		okOrder := len(sets) > 0 && len(regs) > 0
+		for _, r := range regs {
+			if !core.Precedes(st, r, func(x ssa.Instruction) bool {
+				for _, s0 := range sets {
+					if s0 == x {
+						return true
+					}
+				}
+				return false
+			}) {
+				okOrder = false
+			}
+		}
+		okLock := len(sets) > 0
+		for _, s0 := range sets {
+			if !heldS[st][s0]["W:Router.mutex"] {
+				okLock = false
+			}
+		}
+		c.Decide(okOrder, "R18.10", "self-entry-before-the-handlers-are-attached", p.Pos(st.Pos()), "Rib.Set(self) precedes register() on every path of Start", "Router.Start attaches the Interest handlers before the router's own entry is in the RIB: an advertisement fetched in that window lacks the router itself, and because the entry is added later without a new sequence number the neighbours keep the wrong table until the next change")
+		c.Decide(okLock, "R18.10", "self-entry-under-router-mutex", p.Pos(st.Pos()), "Rib.Set(self) in Start holds the router mutex", "Router.Start writes the RIB without the router mutex while the advertisement handler reads it (concurrent map read and map write)")
+	}
+	{
+		_, heldQ := core.EntryLocks(p, core.ModPath+"/dv/dv")
+		nAcc := 0
+		var unl []string
+		for _, fn := range p.FuncsIn(core.ModPath + "/dv/dv") {
+			if strings.HasSuffix(p.File(fn.Pos()), "_test.go") {
+				continue
+			}
+			root := core.RootOf(fn)
+			if root == nil {
+				root = fn
+			}
+			if n := core.BaseName(root); n == "NewRouter" {
+				continue
+			}
+			core.Instrs(fn, func(in ssa.Instruction) {
+				fa, ok := in.(*ssa.FieldAddr)
+				if !ok {
+					return
+				}
+				if t, f := core.FieldAddrName(fa); t != "Router" || f != "advertSyncSeq" {
+					return
+				}
+				nAcc++
+				if !heldQ[fn][in]["W:Router.mutex"] && !heldQ[fn][in]["R:Router.mutex"] {
+					unl = append(unl, core.FuncName(fn)+" at "+c.Pos(in))
+				}
+			})
+		}
+		c.Decide(len(unl) == 0, "R18.11", "sync-sequence-number-under-router-mutex", "-", fmt.Sprintf("%d accesses to Router.advertSyncSeq, all with the router mutex held", nAcc), "the sequence number announced in Sync Interests is accessed without the router mutex ("+strings.Join(unl, "; ")+") while advertSyncNotifyNew increments it under the mutex: the heartbeat can announce a stale or torn number")
+		c.Floor("R18.11", "accesses to Router.advertSyncSeq in dv/dv", nAcc, 2)
+	}
+	{
+		sub := core.NewCtx(c.P, c.Prop, c.Tier)
+		c15Aliasing(sub, core.ModPath+"/dv/dv")
+		n := 0
+		for _, o := range sub.Obls {
+			if !strings.HasPrefix(o.Key, "R15.7:extended-name-owns-storage") {
+				continue
+			}
+			n++
+			d := o.Detail
+			if o.Status != core.OK {
+				d = "a name built in dv/dv shares its backing array with a slice it does not own (the configuration's prefix, read by several goroutines): " + d
+			}
+			c.Decide(o.Status == core.OK, "R18.12", "shared:"+o.Key, o.Pos, d, d)
+		}
+		c.Floor("R18.12", "appends that build a name in dv/dv", n, 1)
+	}
+
+	// ---- R18.13 (= C13 R13.9) an advertised cost is decoded from at most 8 octets: a longer
+	// one would wrap (2^64 decodes as 0) and the destination is installed and re-advertised at
+	// cost 1
+	c.Import(C13, "R18.13", "an advertised cost of nine octets wraps around: 2^64 decodes as 0, the route is installed at cost 1 and re-advertised — the network converges to distances that are not the true ones", 1, func(k string) bool {
+		return strings.HasPrefix(k, "R13.9:natural-number-length-bounded")
+	})
+
 	// ---- R18.9 a fetched advertisement is adopted only when its sequence number EQUALS the
 	// one recorded for the neighbour (the latest announced): the reply to an earlier fetch,
 	// arriving late, must not replace the newer advertisement that was already applied
